@@ -111,6 +111,38 @@ def engine_case(col, kind, keys, diag, seed):
     col.add(None)
 
 
+def two_tuned_kernels_case(col, kind, seed):
+    """TWO gradient kernels of equal dimension in one engine whose user-assigned identifiers sort differently from the order they were added in ('zz_first' on b, then
+    'aa_second' on c): after each slow epoch every kernel's matrix is the regularised variance of ITS OWN parameter's history (scales 100 vs 0.01)"""
+    K = gs.NUTSKernel if kind == "NUTS" else gs.HMCKernel
+    b = gs.EngineBuilder(seed=seed, num_chains=2)
+    b.set_epochs([EpochConfig(EpochType.INITIAL_VALUES, 1, 1, None), EpochConfig(EpochType.FAST_ADAPTATION, 20, 1, None), EpochConfig(EpochType.SLOW_ADAPTATION, 30, 1, None),
+                  EpochConfig(EpochType.SLOW_ADAPTATION, 40, 1, None), EpochConfig(EpochType.POSTERIOR, 4, 1, None)])
+    sc = {k: jnp.asarray(SCALES[k], dtype=jnp.float32) for k in ("b", "c")}
+    b.set_model(gs.DictInterface(lambda s: sum(-0.5 * jnp.sum((s[k] / sc[k]) ** 2) for k in ("b", "c"))))
+    b.set_initial_values({k: jnp.zeros(SHAPES[k], dtype=jnp.float32) for k in ("b", "c")})
+    k1, k2 = K(["b"], initial_step_size=0.05), K(["c"], initial_step_size=0.05)
+    k1.identifier, k2.identifier = "zz_first", "aa_second"
+    b.add_kernel(k1)
+    b.add_kernel(k2)
+    b.store_kernel_states = True
+    b.show_progress = False
+    eng = b.build()
+    eng.sample_all_epochs()
+    res = eng.get_results()
+    bad = None
+    for e in (2, 3):
+        pos = res.positions.get_specific_chain(e).get().unwrap()
+        nxt = res.kernel_states.unwrap().get_specific_chain(e + 1).get().unwrap()
+        for j, kk in enumerate(("b", "c")):
+            after = np.asarray(nxt[j].inverse_mass_matrix)[:, 0]
+            for c in range(2):
+                want = np.var(np.asarray(pos[kk][c], np.float64).reshape(len(pos[kk][c]), -1), axis=0, ddof=1) + 0.001
+                if not np.allclose(after[c].reshape(-1), want, rtol=5e-3, atol=1e-5):
+                    bad = bad or f"after slow epoch {e}, chain {c}: the matrix of the kernel on '{kk}' is {after[c].reshape(-1).tolist()}, the regularised variance of that epoch's history of '{kk}' is {want.tolist()}"
+    col.add(None if bad is None else {"sig": "native::mm::two_kernels_unsorted_identifiers", "what": bad, "input": {"kernel": kind, "identifiers": ["zz_first (b)", "aa_second (c)"]}})
+
+
 def bounded(tier, seed):
     rng = np.random.default_rng(seed)
     col = util.Collector()
@@ -142,6 +174,12 @@ def bounded(tier, seed):
         for diag in (True, False):
             offset_case(col, kind, diag, rng)
             n += 1
+    for kind in (("NUTS",) if tier == "quick" else ("NUTS", "HMC")):
+        try:
+            two_tuned_kernels_case(col, kind, seed)
+        except Exception as e:
+            col.add({"sig": f"native::mm::exception::{type(e).__name__}", "what": f"two tuned kernels: {str(e)[:200]}", "input": {"kernel": kind}})
+        n += 1
     leaves = jax.tree_util.tree_leaves({"b": 1, "a": 2, "W": 3})
     if leaves != [3, 2, 1]:
         col.add({"sig": "native::infrastructure::tree_leaves_order", "what": f"tree_leaves of a dict is no longer sorted-key order: {leaves}", "input": {}})
@@ -154,7 +192,7 @@ def bounded(tier, seed):
         "rule": (f"BOUNDED: real NUTSKernel/HMCKernel.tune (public dispatcher, SLOW_ADAPTATION epoch; single-key kernels with a history of just that key) on seeded random histories (40 draws; and 5 draws for 7 coordinates, the last one with variance 1e-4) for {len(key_sets)} position-key tuples (non-alphabetical orders, "
                  "scalar / vector / (2,3)-matrix / length-1 parameters with very different scales, foreign keys present in the history), diagonal and dense mode, four of them with an explicit initial_inverse_mass_matrix; a history with mean 1000 and sd 0.1 (float32 cancellation); "
                  "expected = var(ddof=1)+0.001 / cov+0.001*I of the kernel's own position (kernel.position(state), DictInterface; NamedTupleInterface and DataclassInterface for two key tuples) flattened with ravel_pytree per draw. one real engine run (thorough: two, and all key permutations) with "
-                 f"a fast, a burn-in and two slow-adaptation epochs of equal length and a co-existing RW kernel: the matrix in force after each epoch is computed from that epoch's own stored history. seed={seed}"),
+                 f"a fast, a burn-in and two slow-adaptation epochs of equal length and a co-existing RW kernel: the matrix in force after each epoch is computed from that epoch's own stored history; two gradient kernels of equal dimension with user identifiers in non-alphabetical order, each tuned from its own parameter's history. seed={seed}"),
         "samples": [{"kernel": "NUTS", "position_keys": ["b", "a"], "diagonal": True}, {"kernel": "HMC", "position_keys": ["c", "W", "b"], "diagonal": False}],
         "exhaustive": False, "violations": col.violations,
     }
